@@ -23,6 +23,7 @@ def _s(name, unwind, bounds, enc=(), tier="quick", timeout=900):
 
 ID = "C14"
 PROP = {
+    "max_jobs": 8,  # parallel CBMC jobs (memory profile of these harnesses)
     "claim":
         "For every API listed under 'encodes' the caller-supplied length is ONE symbolic variable over its whole "
         "range - every usize for lengths passed as numbers (all u16 for Ipv4Header::new, all u8 for "
